@@ -147,6 +147,8 @@ def tlc(module, cfg, *, workers=None, sink=None, simulate=None, depth=None, seed
         break
     res.wall = time.time() - t0
     res.ok = (res.rc == 0 and res.violation is None)
+    log("tlc %s %s: %d generated, %d distinct, %d vectors, %.1fs%s" % (module, os.path.basename(cfg), res.generated, res.distinct, res.vectors,
+                                                                      res.wall, "" if res.ok else " [" + str(res.violation) + "]"))
     if coverage:
         for line in res.log:
             m = re.match(r"\s*<(\w+) line .*>: (\d+):(\d+)$", line)
@@ -179,16 +181,28 @@ _built = {}
 
 
 def build_harness(tags="verif", race=False, name=None):
-    """Always rebuild from /repo's current working tree (go's build cache makes this cheap)."""
+    """Always rebuild from the repository's current working tree (go's build cache makes this cheap).
+    The repository is /repo unless VERIF_REPO points elsewhere (development: a scratch worktree with a
+    seeded change); the harness sources are then built from a private copy so that go.mod can name it."""
     key = (tags, race)
     if key in _built:
         return _built[key]
     os.makedirs(os.path.join(WORK, "bin"), exist_ok=True)
-    out = os.path.join(WORK, "bin", name or ("vh-" + tags.replace(",", "_") + ("-race" if race else "")))
+    suffix = "" if REPO == "/repo" else "-" + hashlib.sha1(REPO.encode()).hexdigest()[:8]
+    out = os.path.join(WORK, "bin", name or ("vh-" + tags.replace(",", "_") + ("-race" if race else "") + suffix))
     hdir = os.path.join(ROOT, "harness")
+    if REPO != "/repo":
+        priv = os.path.join(WORK, "harness" + suffix)
+        shutil.rmtree(priv, ignore_errors=True)
+        os.makedirs(priv)
+        for f in glob.glob(os.path.join(hdir, "*.go")):
+            shutil.copy(f, priv)
+        gm = open(os.path.join(hdir, "go.mod")).read().replace("=> /repo", "=> " + REPO)
+        open(os.path.join(priv, "go.mod"), "w").write(gm)
+        hdir = priv
     # go.sum is the union of the repository's own sums (fresh copy every time, the repo may have changed)
     sums = set()
-    for f in (os.path.join(REPO, "go.sum"), os.path.join(REPO, "proto/fixtures/go.sum"), os.path.join(hdir, "go.sum.base")):
+    for f in (os.path.join(REPO, "go.sum"), os.path.join(REPO, "proto/fixtures/go.sum")):
         if os.path.exists(f):
             sums.update(l for l in open(f).read().splitlines() if l.strip())
     open(os.path.join(hdir, "go.sum"), "w").write("\n".join(sorted(sums)) + "\n")
@@ -236,6 +250,7 @@ def run_harness(binary, prop, vecfile, *, seed=1, tier="quick", shards=1, extra_
     if env_extra:
         env.update(env_extra)
     rr = RunResult()
+    t_h = time.time()
     pending = [("%d/%d" % (i, shards), 0) for i in range(shards)]
     procs = []
     deadline = time.time() + timeout
@@ -299,14 +314,15 @@ def run_harness(binary, prop, vecfile, *, seed=1, tier="quick", shards=1, extra_
                     tail = re.sub(r"(?m)^@\d+\n", "", err)
                     rr.crashes.append({"index": bad, "shard": shard, "stderr": tail[:3000], "rc": p.returncode})
                     restarts += 1
-                    if restarts > 200:
-                        raise Infra("too many harness crashes (prop %s)" % prop)
-                    nxt.append(start(shard, bad + 1))
+                    if restarts <= 24:
+                        nxt.append(start(shard, bad + 1))
+                    # beyond 24 fatal errors the run is cut short: the crashes already recorded are the verdict
                 else:
                     raise Infra("harness died rc=%s (prop %s shard %s):\n%s" % (p.returncode, prop, shard, err[-4000:]))
             else:
                 rr.stderr += "\n".join(l for l in err.splitlines() if not l.startswith("@"))[-4000:]
         running = nxt
+    log("harness %s: %d divergences, %d crashes, %.1fs" % (prop, len(rr.divs), len(rr.crashes), time.time() - t_h))
     return rr
 
 
@@ -393,6 +409,11 @@ class Check:
             for k, v in (s.get("extra") or {}).items():
                 if k != "wall_ms":
                     self.notes[k] = self.notes.get(k, 0) + v
+            for k, v in (s.get("suppressed") or {}).items():
+                sup = self.notes.setdefault("divergences_counted_only", {})
+                sup[k] = sup.get(k, 0) + v
+                if k in self.findings and self.findings[k].get("status") == "open":
+                    self.known[k] = self.known.get(k, 0) + v
             tags = self.notes.setdefault("tags", {})
             for k, v in (s.get("tags") or {}).items():
                 tags[k] = tags.get(k, 0) + v
@@ -470,6 +491,24 @@ class Check:
         json.dump(ev, open(os.path.join(ROOT, "evidence", self.prop + ".json"), "w"), indent=1)
         sys.stdout.flush()
         return 1 if self.violations else 0
+
+
+def cap_vectors(path, maxn, seed, keep_first=0):
+    """Bound the number of vectors replayed: keep the first keep_first lines and a seeded sample of the rest.
+    Returns (kept, total)."""
+    import random
+    lines = open(path).read().splitlines(True)
+    total = len(lines)
+    if total <= maxn:
+        return total, total
+    head, rest = lines[:keep_first], lines[keep_first:]
+    rnd = random.Random(seed)
+    k = max(maxn - len(head), 0)
+    idx = sorted(rnd.sample(range(len(rest)), min(k, len(rest))))
+    with open(path, "w") as f:
+        f.writelines(head)
+        f.writelines(rest[i] for i in idx)
+    return len(head) + len(idx), total
 
 
 def vecpath(prop, name):
